@@ -60,6 +60,25 @@ Definition rd_vals (n : nat) (s : stream) : option (list D * stream) :=
   | _ => q <- rd_vals_aux n s ;; Some (fst q, skip_ws (snd q))
   end.
 
+(* the WEIGHTS of a Kruskal file: np.fromfile(count = r) returns FEWER values when a word (in a well-formed file: the
+   "matrix" line) comes first — a short read; import_data goes on with the weights it got, and the ktensor constructor
+   compares the number of columns of the factors with the number of weights READ, not with the rank line *)
+Fixpoint rd_upto (n : nat) (s : stream) : list D * stream :=
+  match n with
+  | O => ([], s)
+  | S n' =>
+      match skip_ws s with
+      | Some t :: r =>
+          match val_tok t with
+          | Some v => let q := rd_upto n' r in (v :: fst q, snd q)
+          | None => ([], skip_ws s)
+          end
+      | rest => ([], rest)
+      end
+  end.
+Definition rd_weights (n : nat) (s : stream) : list D * stream :=
+  match n with O => ([], s) | _ => let q := rd_upto n s in (fst q, skip_ws (snd q)) end.
+
 (* import_shape: the order on one line (first token), ALL tokens of the next line as sizes; their number must be the order *)
 Definition rd_shape_z (s : stream) : option (list Z * stream) :=
   let p1 := readline s in let p2 := readline (snd p1) in
@@ -139,8 +158,8 @@ Definition import_stream (b : Z) (s : stream) : option (obj D) :=
         sh <- rd_shape_z (snd p0) ;;
         let pr := readline (snd sh) in
         zr <- head_int (fst pr) ;; r <- nat_of zr ;;
-        w <- rd_vals r (snd pr) ;;
-        f <- rd_factors_l r (length (fst sh)) (snd w) ;;
+        let w := rd_weights r (snd pr) in
+        f <- rd_factors_l (length (fst w)) (length (fst sh)) (snd w) ;;
         Some (OKtensor (mkK (fst w) f))
       else None
   | _ => None
